@@ -117,23 +117,34 @@ impl Dag {
     // By default, all nodes are false, and calling this is required to make a
     // subtree visible during graph traversals.
     pub fn set_subtree_visibility(&mut self, node: usize, visible: bool) -> Result<(), GraphError> {
-        let mut work: VecDeque<usize> = VecDeque::new();
+        // Iterative depth-first walk. A node is `active` while it is on the
+        // path currently being explored, so reaching an active node again
+        // means the graph has a cycle; reaching a finished node again (as in
+        // a diamond) does not.
+        let mut stack: Vec<(usize, usize)> = Vec::new();
         let mut visited = HashSet::new();
         let mut active = HashSet::new();
-        work.push_front(node);
-        while let Some(n) = work.pop_front() {
-            self.visibility[n] = visible;
-            visited.insert(n);
-            active.remove(&n);
-            for &depn in &self.adj_list[n] {
+        self.visibility[node] = visible;
+        visited.insert(node);
+        active.insert(node);
+        stack.push((node, 0));
+        while let Some(&(n, i)) = stack.last() {
+            if let Some(&depn) = self.adj_list[n].get(i) {
+                if let Some(top) = stack.last_mut() {
+                    top.1 += 1;
+                }
                 if active.contains(&depn) {
                     let label = self.get_label_by_node(&depn)?;
                     return Err(GraphError::Cycle(depn, label.to_owned()));
                 }
-                if !visited.contains(&depn) {
-                    work.push_back(depn);
+                if visited.insert(depn) {
+                    self.visibility[depn] = visible;
                     active.insert(depn);
+                    stack.push((depn, 0));
                 }
+            } else {
+                active.remove(&n);
+                stack.pop();
             }
         }
 
